@@ -202,6 +202,21 @@ func (h *Hist) StepL(ri int, method string, variant int, o *hx.Out) bool {
 	if !h.Step(ri, method, variant, o) {
 		return false
 	}
+	// The op class "rebuild" comes from a name set (hist.go rebuildSet).  Decide by behaviour whether the result's core
+	// internals are in fact a Clone of the receiver's: a twin of the receiver that differs in a value-typed core field
+	// (Nilable) passes that field on to what the method returns iff the method copies the core internals
+	// (ZodFunction.Input / Output do; Extend, Pick, Or, … build fresh ones).  Such a step is a `derive`.
+	if toks := strings.Split(h.Steps[len(h.Steps)-1], " "); len(toks) == 9 && toks[1] == "rebuild" {
+		if inheritsCore(recvS, h.Live[len(h.Live)-1].S, method, variant) {
+			res := h.Live[len(h.Live)-1]
+			k := res.Snap.Len - recvSnapLen(h, ri)
+			if k >= 0 {
+				toks[1], toks[2] = "derive", fmt.Sprint(k)
+				h.Steps[len(h.Steps)-1] = strings.Join(toks, " ")
+				o.Count("class:rebuild-by-name-is-a-clone")
+			}
+		}
+	}
 	h.Steps[len(h.Steps)-1] += " " + LocalSharing(recvS, h.Live[len(h.Live)-1].S)
 	last := len(h.Verd) - 1
 	fresh, list, _ := strings.Cut(h.Verd[last], ":")
@@ -231,6 +246,27 @@ func (h *Hist) StepL(ri int, method string, variant int, o *hx.Out) bool {
 		o.Count("type-local-state-checked")
 	}
 	return true
+}
+
+func recvSnapLen(h *Hist, ri int) int { return h.Live[ri].Snap.Len }
+
+// inheritsCore: does `method` hand the receiver's value-typed core fields on to its result?  A nilable receiver shows it in
+// the result at hand (a constructor-built schema is not nilable); otherwise a nilable twin of the receiver is asked.
+func inheritsCore(recv, res any, method string, variant int) bool {
+	rs, ok := recv.(Schema)
+	if !ok {
+		return false
+	}
+	if rs.Internals().Nilable {
+		r, ok := res.(Schema)
+		return ok && r.Internals().Nilable
+	}
+	twin, ok, _ := Call(recv, "Nilable", 0)
+	if !ok || !twin.Internals().Nilable || !sameFamily(recv, twin) {
+		return false
+	}
+	tres, ok, _ := Call(twin, method, variant)
+	return ok && tres.Internals().Nilable
 }
 
 // ShortType is the schema type name without package and type arguments (the Type of the method table).
